@@ -187,6 +187,14 @@ func VerifH_C19_s3_legacy() {
 	verifrt.MapOrderAll(false) // url.Values.Encode sorts the keys: the map iteration order cannot be observed
 	req, base := c19Req("https://bucket.s3.example.com/?max-keys=2")
 	res := S3ListBucketResult{Contents: c19Objects("p")}
+	// everything else in the listing is server-controlled too
+	res.IsTruncated = verifrt.Bool("truncated")
+	if verifrt.Choice("has-token", 2) == 1 {
+		res.NextContinuationToken = "tok1"
+	}
+	if verifrt.Choice("has-prefixes", 2) == 1 {
+		res.CommonPrefixes = []CommonPrefix{{Prefix: []string{"dir/"}}, {}}
+	}
 	out := s3Legacy(req, base, res)
 	for _, o := range res.Contents {
 		if o.Size > 0 {
